@@ -118,12 +118,41 @@ Proof.
   set (r := reader_of ts) in *.
   assert (Hwid : 0 < b_id w < nid).
   { eapply Forall_forall in Hids; [exact Hids|]. apply in_or_app. right. now left. }
+  destruct (b_used w =? 0) eqn:Ez.
+  { (* the block was sealed empty: it is retired, the chain and the cursor stay as they are *)
+    assert (Hwe : b_ents w = []).
+    { destruct (b_ents w) as [|e0 r0] eqn:Ee; [reflexivity|]. exfalso. cbn [sum_need] in Hwu. pose proof (need_pos c e0 Hh). lia. }
+    assert (Hro : reader_of (seal ts w) = r).
+    { unfold seal, chain_push. cbn [reader_of ts_reader]. fold r. now rewrite Ez. }
+    assert (Hts' : forall X, X = with_writer (seal ts w) (Some nb) -> reader_of X = r /\ ts_writer X = Some nb /\
+                   ts_poisoned X = false /\ ts_unmodelled X = false /\ ts_index X = ts_index ts).
+    { intros X ->. unfold with_writer in *. cbn [reader_of ts_reader] in *. unfold seal in *; cbn in *. repeat split; auto. }
+    destruct (Hts' _ eq_refl) as (X1 & X2 & X3 & X4 & X5).
+    assert (Hnbt : (r_tail_bid r =? b_id nb) = false) by lia.
+    split; [|split].
+    - constructor; unfold chain_of, w_list, tail_start; rewrite ?X1, ?X2, ?X3, ?X4, ?X5; auto.
+      + constructor; [|constructor]. unfold bwf. rewrite Fu, Fe. cbn. lia.
+      + rewrite map_app in *. cbn [map] in *. apply NoDup_remove_1 in Hnd. rewrite app_nil_r in Hnd.
+        apply NoDup_snoc; [exact Hnd|].
+        intros Hin. apply in_map_iff in Hin. destruct Hin as (b & Hb & Hin).
+        apply Forall_app in Hids. destruct Hids as (Hids1 & _).
+        eapply Forall_forall in Hids1; [|exact Hin]. lia.
+      + apply Forall_app in Hids. destruct Hids as (Hids1 & _).
+        apply Forall_app. split; [eapply Forall_impl; [|exact Hids1]; cbn; intros; lia|].
+        constructor; [lia|constructor].
+      + lia.
+      + intros _ w' Hw'. inversion Hw'; subst w'. lia.
+      + intros w' Hw'. inversion Hw'; subst w'. rewrite Fe, Hnbt. apply okoff_0.
+    - unfold stream, chain_of, w_ents. rewrite X1, X2, Fe, Hsome, Hwe. reflexivity.
+    - unfold unread, w_ents, tail_start. rewrite X1, X2, Fe, Hsome, Hwe. fold r. rewrite Hnbt.
+      destruct (skipn (r_idx r) (r_chain r)); [|reflexivity].
+      cbn. destruct (r_tail_bid r =? b_id w); reflexivity. }
   (* the reader after the push *)
   assert (Hcp : exists r', reader_of (seal ts w) = r' /\ r_chain r' = r_chain r ++ [w] /\ r_tail_bid r' = r_tail_bid r /\
                 r_tail_off r' = r_tail_off r /\ r_hydrated r' = r_hydrated r /\
                 ((r_tail_bid r =? b_id w) = true -> r_idx r' = length (r_chain r) /\ r_off r' = r_tail_off r) /\
                 ((r_tail_bid r =? b_id w) = false -> r_idx r' = r_idx r /\ r_off r' = r_off r)).
-  { unfold seal, chain_push. cbn [reader_of ts_reader]. fold r.
+  { unfold seal, chain_push. cbn [reader_of ts_reader]. fold r. rewrite Ez.
     destruct (r_tail_bid r =? b_id w) eqn:E; eexists; (split; [reflexivity|]); cbn; repeat split; try discriminate; auto.
     - rewrite app_length. cbn. lia.
     - (* min tail_off used = tail_off *)
